@@ -18,3 +18,16 @@ TWINS = [
     T("lock-renamed", P, "_PYPDF_PATCH_LOCK = threading.RLock()", "_PYPDF_PATCH_LOCK = threading.Lock()"),
     T("cache-key-built-inline", P, "    cache_key = (font_data, tuple(glyph_ids))", "    cache_key = (font_data, tuple(sorted(glyph_ids)))"),
 ]
+
+# --- seeded changes kept under /verif/seeded (sub-agents saw only the property text); each must be reported by the named rule
+import os as _os
+from sa.selftest.harness import P as _P
+_SEEDS = _os.path.join(_os.path.dirname(_os.path.dirname(_os.path.dirname(_os.path.abspath(__file__)))), "seeded")
+SEEDED = [
+    ("C15-1", "C15-PATCH"),
+    ("C15-2", "C15-RES"),
+    ("C15-3", "C15-SHARED"),
+    ("C15-4", "C15-PATCH"),
+    ("C15-5", "C15-RES"),
+]
+MUTANTS = list(MUTANTS) + [_P("seed-" + sid, _os.path.join(_SEEDS, sid, "patch.diff"), rule) for sid, rule in SEEDED if _os.path.exists(_os.path.join(_SEEDS, sid, "patch.diff"))]
